@@ -218,6 +218,28 @@ def apis():
         st["armed"] = True
         t.compute(0.3, progress_type="rec")
 
+    def tempo_sd(fail_at):
+        # the failing user callable is the bath's spectral density, evaluated lazily inside the influence functions while the
+        # computation (and its progress report) is under way
+        st, tick = counted(fail_at)
+        def jf(w):
+            tick()
+            return 0.1 * w
+        b2 = oqupy.Bath(0.5 * oqupy.operators.sigma("z"), oqupy.CustomSD(jf, cutoff=3.0, cutoff_type="exponential", temperature=0.1))
+        t = oqupy.Tempo(oqupy.System(0.3 * oqupy.operators.sigma("x")), b2, oqupy.TempoParameters(dt=0.1, epsrel=1e-4, dkmax=None), rho, 0.0)
+        st["armed"] = True
+        t.compute(0.3, progress_type="rec")
+
+    def gibbs_sd(fail_at):
+        st, tick = counted(fail_at)
+        def jf(w):
+            tick()
+            return 0.1 * w
+        g = oqupy.GibbsTempo(oqupy.System(0.3 * oqupy.operators.sigma("x")), oqupy.Bath(np.diag([1.0, -0.5]), oqupy.CustomSD(jf, cutoff=3.0, cutoff_type="exponential", temperature=0.7)),
+                             oqupy.GibbsParameters(n_steps=5, epsrel=1e-6))
+        st["armed"] = True
+        g.compute(progress_type="rec")
+
     def meanfield(fail_at):
         st, tick = counted(fail_at)
         def eom(t, states, a):
@@ -368,6 +390,7 @@ def apis():
 
     return [("compute_dynamics(bad cap tensor)", False, dyn_caps, [1, 2, 3, 4]), ("compute_dynamics_with_field(bad cap tensor)", False, field_caps, [1, 2, 3, 4]),
             ("Tempo.compute", True, tempo, True), ("MeanFieldTempo.compute", True, meanfield, True),
+            ("Tempo.compute(spectral density fails)", True, tempo_sd, [1, 31, 800, 2500]), ("GibbsTempo.compute(spectral density fails)", True, gibbs_sd, [1, 31, 500, 1500]),
             ("compute_correlations_nt", True, corr_nt, True),
             ("compute_dynamics", False, dyn, True), ("compute_dynamics_with_field", False, dyn_field, True),
             ("compute_gradient_and_dynamics", False, grad, True),
